@@ -45,6 +45,9 @@ def jobs(tier, seed):
     out.append({"id": "ok/literal-delta", "fam": "ok", "seq": ["P2", "R3"], "place": "between", "literal_delta": True})
     for seq in (["P1"], ["P2", "R3"], ["R1", "P3"]):
         out.append({"id": f"ok/twice/{'-'.join(seq)}", "fam": "ok", "seq": seq, "place": "between", "twice": True})
+    for seq in (["P1"], ["R3", "P2"]):
+        out.append({"id": f"ok/delta-reassigned/{'-'.join(seq)}", "fam": "ok", "seq": seq, "place": "between", "reassigned": True})
+        out.append({"id": f"ok/delta-shadowed/{'-'.join(seq)}", "fam": "ok", "seq": seq, "place": "between", "shadowed": True})
     for m in MALFORMED:
         out.append({"id": f"malformed/{m}", "fam": "malformed", "variant": m})
     return out
@@ -92,6 +95,13 @@ def run(spec, cx):
             cx.assume(((o[0] << 16) | (o[1] << 8) | o[2]) != EOF_MARK)
         if spec.get("literal_delta"):
             syms, directive = {}, ".include_ips 'p.ips', -0x1234\n"
+        elif spec.get("reassigned"):
+            # the delta is the value of the variable where the directive stands
+            syms = {"d": cx.int("d", -65536, 65535), "e": cx.int("e", -65536, 65535)}
+            directive = "off := d\n.include_ips 'p.ips', off\noff := e\n"
+        elif spec.get("shadowed"):
+            syms = {"d": cx.int("d", -65536, 65535), "e": cx.int("e", -65536, 65535)}
+            directive = "off := d\n{\n.include_ips 'p.ips', off + 1\noff = e\n}\n"
         elif spec.get("twice"):
             # the same file included twice with two different deltas
             syms = {"d": cx.int("d", -65536, 65535), "e": cx.int("e", -65536, 65535)}
@@ -137,6 +147,8 @@ def run(spec, cx):
 def _expected_records(spec, cx):
     if spec.get("twice"):
         return _records_with(spec, cx, cx.t("d")) + _records_with(spec, cx, cx.t("e"))
+    if spec.get("shadowed"):
+        return _records_with(spec, cx, cx.t("d") + 1)
     return _records_with(spec, cx, B(-0x1234) if spec.get("literal_delta") else cx.t("d"))
 
 
